@@ -58,7 +58,15 @@ pub enum Surgery {
     },
     /// Install a synthesised, well-formed AAT `morx` table keyed on `glyphs` (sim/src/morx_build.rs)
     /// and remove `GSUB` (the library applies morx only when there is no GSUB).
-    InstallMorx { glyphs: Vec<u16>, variant: u64 },
+    InstallMorx {
+        glyphs: Vec<u16>,
+        variant: u64,
+        /// Some(h): one of the builder's special-case tables (valid per Apple's specification,
+        /// constructs the default variants avoid; see builders/morx-NOTES.md) keyed on the first
+        /// two glyphs.
+        #[serde(default, skip_serializing_if = "Option::is_none")]
+        hazard: Option<u32>,
+    },
     /// Install a synthesised CBLC/CBDT (colour) or EBLC/EBDT pair (sim/src/bitmap_build.rs);
     /// `extended` also emits component formats 8/9 and raw BGRA images.
     InstallBitmaps {
